@@ -17,7 +17,7 @@ RULE = ("trajectories of generated worlds (heterogeneous voltages, three-phase m
         "after each run every analysis function is recomputed in plain Python from the recorded rates, the scenario's voltages / "
         "phases / constraint dictionaries and the sessions; constraint subsets are requested in random order; non-trivial = "
         ">=2 distinct voltages and a subset query whose order differs from network order; distinct = history signature + query")
-PROBES = ["concurrent_callers", "thread_switches", "subset_reordered", "hetero_voltage", "nema_checked", "nema_zero_mean", "threshold_query", "unserved_session", "requery_after_update_constraint", "requery_after_remove_constraint", "same_instant_two_zones", "trajectory_over_3000_periods", "trajectory_over_16384_periods", "degenerate_subset_request",
+PROBES = ["concurrent_callers", "thread_switches", "subset_reordered", "hetero_voltage", "nema_checked", "nema_zero_mean", "threshold_query", "unserved_session", "requery_after_update_constraint", "requery_after_remove_constraint", "same_instant_two_zones", "results_edited_in_place_and_asked_again", "trajectory_over_3000_periods", "trajectory_over_16384_periods", "degenerate_subset_request",
           "magnitudes_flag_true", "complex_return", "refused_add_then_corrected"]
 FAULT_DIMENSION = "none - post-run oracle on recorded trajectories (crash+rerun only diversifies the trajectories)"
 ASSUMPTIONS = ["constraint currents are compared by magnitude (either complex or real return passes)",
@@ -263,6 +263,30 @@ def check(sc):
                         if off_:
                             out.add("C18/datetimes", "entry %d is %s, expected %s" % (k, da[k], w))
                             break
+            # the analyst post-processes the arrays it was given IN PLACE (kA, kW, local time, masking) and asks again: every answer
+            # is computed from the recorded trajectory, not from what an earlier caller did to an earlier answer
+            red = sub(sc["seed"], "edit_results")
+            if not out.viol and n >= 1 and red.random() < 0.3:
+                out.probe("results_edited_in_place_and_asked_again")
+                for nm_, fn_ in (("aggregate_current", lambda: analysis.aggregate_current(sim)), ("aggregate_power", lambda: analysis.aggregate_power(sim)),
+                                 ("datetimes_array", lambda: analysis.datetimes_array(sim))):
+                    first_ = fn_()
+                    keep_ = np.array(first_, copy=True)
+                    try:
+                        if nm_ == "datetimes_array":
+                            first_ += np.timedelta64(8, "h")
+                        else:
+                            first_ *= 1000.0
+                            first_[...] = -1.0
+                    except (ValueError, TypeError):
+                        continue              # (a read-only answer cannot be edited: fine)
+                    second_ = fn_()
+                    if len(second_) != len(keep_) or not all(a_ == b_ for a_, b_ in zip(np.asarray(second_).tolist(), keep_.tolist())):
+                        out.add("C18/" + ("datetimes" if nm_ == "datetimes_array" else nm_), "%s(sim) asked twice: the caller edited the first answer in place and the second "
+                                "answer is %s..., the first was %s..." % (nm_, np.asarray(second_)[:3].tolist(), keep_[:3].tolist()))
+                        break
+                if not out.viol and sim.charging_rates.shape[1] >= 1 and not np.array_equal(np.array(R, dtype=float), np.asarray(sim.charging_rates, dtype=float)):
+                    out.add("C18/aggregate_current", "editing the arrays returned by the analysis functions changed the simulator's recorded charging rates")
             # two finished simulations alive in one process whose starts denote the SAME instant in different time zones (two sites
             # of one operator): each one's datetime array is anchored at its own wall-clock start
             rz = sub(sc["seed"], "two_zones")
